@@ -1700,13 +1700,14 @@ fn exec_cfg(w: &[&str], salt: u64, ex: &mut Exec) -> String {
     // 1. the first n jobs must all start
     let all_begun = || begun.load(SeqCst) >= n;
     let mut never_ran = false;
+    // (an accepted job may start a moment after its submitter has returned: wait for the jobs, not the thread)
+    let t_sub = Instant::now();
     if let (true, Some(p)) = (tiny, pool_handle.as_ref()) {
-        if let Some((sig, detail)) = watch(p, &sh, &|| all_begun() || h.is_finished(), &|| begun.load(SeqCst), limit, tmo.as_millis() as u64) {
+        if let Some((sig, detail)) = watch(p, &sh, &|| all_begun() || t_sub.elapsed() > Duration::from_secs(8), &|| begun.load(SeqCst), limit, tmo.as_millis() as u64) {
             ex.fail(sig, format!("{detail} ({what})"));
         }
     } else {
-        let t0 = Instant::now();
-        while !all_begun() && !h.is_finished() && t0.elapsed() < Duration::from_secs(6) {
+        while !all_begun() && t_sub.elapsed() < Duration::from_secs(6) {
             thread::sleep(Duration::from_micros(300));
         }
     }
